@@ -156,6 +156,15 @@ Section Facts.
   Qed.
 End Facts.
 
+Lemma In_alookup {V} (m : amap V) k v : NoDup (akeys m) -> In (k, v) m -> alookup k m = Some v.
+Proof.
+  unfold akeys. induction m as [|[k0 v0] m IH]; cbn; intros Hnd Hin; [tauto|].
+  inversion Hnd as [|x l Hnin Hnd']; subst. destruct Hin as [Heq|Hin].
+  - injection Heq as -> ->. rewrite str_eqb_refl. reflexivity.
+  - destruct (str_eqb_spec k k0) as [->|Hne]; [|auto].
+    exfalso. apply Hnin. apply in_map_iff. exists (k0, v). auto.
+Qed.
+
 (** counting occurrences of a string *)
 Lemma count_str_app x l l' : count_str x (l ++ l') = count_str x l + count_str x l'.
 Proof. apply count_occ_app. Qed.
